@@ -36,10 +36,10 @@ Fixpoint translate (g : str) : option regex :=
       else option_map (RCat (RLit c)) (translate t)
   end.
 
-(** (g1)|(g2)|...|(gn); nothing at all for the empty list. *)
+(** (g1)|(g2)|...|(gn); the empty character class, which no text matches, for the empty list. *)
 Fixpoint alts (rs : list regex) : regex :=
   match rs with
-  | [] => REps
+  | [] => RNone
   | [r] => RGroup r
   | r :: rs' => RAlt (RGroup r) (alts rs')
   end.
